@@ -44,6 +44,10 @@ struct Expansion {
     std::string full;                     // untruncated expansion (first alternative)
     int tags = 0, cut = 0;
     std::string shape;                    // token classes, for evidence signatures
+    // the expansion piece by piece: fixed text (literals, values that fit) and cut values (text = the full value, of which a
+    // prefix of at most datasource_message_max_length bytes may appear); segs_ok = the structure is unambiguous
+    struct Seg { bool variable; std::string text; };
+    std::vector<Seg> segs; bool segs_ok = true; long cut_total = 0;
 };
 Expansion model_expand(const std::string &fmt, long dsmax, long total_max, CallCtx &c);
 
